@@ -213,10 +213,30 @@ func checkGen(rec *stats.Recorder, c genCase) (msg string, known string) {
 	// 2. deterministic: fresh processes give byte-identical trees
 	for k := 1; k < 3; k++ {
 		outk := filepath.Join(work, fmt.Sprintf("out%d", k))
+		if k == 2 {
+			// the third run regenerates into a directory that already holds generated code: the previous output plus stale
+			// generated files of types that no longer exist, next to the current ones and in packages of their own
+			// (also under an escaped `_internal` directory, where the generator puts namespaces with an `internal` segment)
+			dirs := map[string]bool{"g/_internal/zzgone": true, "zzgone/sub": true}
+			for rel, content := range t0 {
+				must(os.MkdirAll(filepath.Join(outk, filepath.Dir(rel)), 0o755))
+				must(os.WriteFile(filepath.Join(outk, rel), []byte(content), 0o644))
+				if d := filepath.Dir(rel); d != "." {
+					dirs[d] = true
+				}
+			}
+			for d := range dirs {
+				must(os.MkdirAll(filepath.Join(outk, d), 0o755))
+				must(os.WriteFile(filepath.Join(outk, d, "ZzGone.gr.go"), []byte("package gone\n\nvar Broken = undefinedIdentifier\n"), 0o444))
+			}
+		}
 		if o, err := run(mod, gendrv, drvArgs(manifest, outk, root)...); err != nil {
 			return fail("the generator failed on run %d of the same manifest: %s", k+1, lastLines(o, 8))
 		}
 		if d := diffTrees(t0, readTree(outk)); d != "" {
+			if k == 2 {
+				return fail("regenerating into a directory that holds earlier generated code does not give the output of a fresh generation: %s", d)
+			}
 			return fail("two runs of the generator on the same manifest differ: %s", d)
 		}
 	}
